@@ -151,6 +151,7 @@ type proc struct {
 	wop     string
 	b       []int
 	resume  chan struct{}
+	release chan struct{} // closed when the run is abandoned: every parked process runs on freely
 	started bool
 	grants  int
 	fin     bool
@@ -161,7 +162,7 @@ type proc struct {
 
 var (
 	cur     *proc
-	arrive  = make(chan string)
+	arrive  chan string // per run, buffered: a process reports the point it reached
 	freeRun bool
 	frMu    sync.Mutex
 	recMu   sync.Mutex
@@ -194,7 +195,15 @@ func gate(point string) {
 	}
 	p := cur
 	arrive <- point
-	<-p.resume
+	p.park()
+}
+
+// park waits for the next grant (or for the run to be abandoned).
+func (p *proc) park() {
+	select {
+	case <-p.resume:
+	case <-p.release:
+	}
 }
 
 // method table for the abstract lookup of the model: fixed components and a pair (tb, tw) of universe
@@ -328,8 +337,15 @@ func runSchedules(in string) {
 		c := listing(ig)
 		tw.Emit(event{Ev: "Reset", Mode: "sched", Run: run, Sid: run, Pred: s.Pred, B: []int{}, Res: []int{}, Fault: -1, Pl: []plE{}, C: c,
 			Q: qx{Q: storeops.Q{M: md.name}}})
+		arrive = make(chan string, 16)
+		release := make(chan struct{})
+		var wg sync.WaitGroup
+		for _, p := range procs[1:] {
+			p.release = release
+		}
 		body := func(p *proc) {
-			<-p.resume
+			defer wg.Done()
+			p.park()
 			if p.kind == "r" {
 				p.res, p.err = read(hs[p.h], p.q)
 				arrive <- "ret"
@@ -343,7 +359,7 @@ func runSchedules(in string) {
 			}
 			p.err = e != nil
 			arrive <- "ret"
-			<-p.resume
+			p.park()
 			arrive <- "done"
 		}
 		sig := func(p *proc) string {
@@ -366,6 +382,7 @@ func runSchedules(in string) {
 			cur = p
 			if !p.started {
 				p.started = true
+				wg.Add(1)
 				go body(p)
 			}
 			p.grants++
@@ -373,7 +390,7 @@ func runSchedules(in string) {
 			select {
 			case at := <-arrive:
 				p.at = at
-			case <-time.After(250 * time.Millisecond): // >= 10^4 x the duration of a step; only discards the run
+			case <-time.After(500 * time.Millisecond): // >= 10^4 x the duration of a step; only discards the run
 				stuckSig[s0]++
 				stats["unforceable_timeout"]++
 				return false
@@ -429,42 +446,17 @@ func runSchedules(in string) {
 			}
 		}
 		if !okRun {
-			// unforceable: release every parked process and wait for the calls to end; the run is
-			// marked so that the trace specification skips it
+			// unforceable on this tree: release every parked process, wait for the calls to end; the
+			// run is marked so that the trace specification judges nothing after this point
 			setFree(true)
-			for _, p := range procs[1:] {
-				if p.started && !p.fin {
-					go func(p *proc) {
-						for {
-							select {
-							case p.resume <- struct{}{}:
-							case <-time.After(100 * time.Millisecond):
-								return
-							}
-						}
-					}(p)
-				}
+			close(release)
+			fin := make(chan struct{})
+			go func() { wg.Wait(); close(fin) }()
+			select {
+			case <-fin:
+			case <-time.After(120 * time.Second):
+				must(fmt.Errorf("run %d: processes did not finish even when run freely", run))
 			}
-			ends := 0
-			need := 0
-			for _, p := range procs[1:] {
-				if p.started && !p.fin {
-					need++
-					if p.kind == "w" && p.at != "ret" {
-						need++ // ret and done
-					}
-				}
-			}
-			deadline := time.After(60 * time.Second)
-			for ends < need {
-				select {
-				case <-arrive:
-					ends++
-				case <-deadline:
-					must(fmt.Errorf("run %d: processes did not finish even when run freely", run))
-				}
-			}
-			time.Sleep(150 * time.Millisecond)
 			setFree(false)
 			tw.Emit(event{Ev: "Abort", Mode: "sched", Run: run, Sid: run, B: []int{}, Res: []int{}, Fault: -1, Pl: []plE{}, C: listing(ig)})
 			stats["runs_unforceable"]++
